@@ -114,6 +114,14 @@ def h_edits(base: int, k: int, **sym):
     from penman.layout import POP, Push
     real, ref = models.get('default')
     g = penman.decode(BASES[base])
+    ci = sym['copy']
+    bound_int(ci, 0, 2)
+    if ci == 1:
+        # a copy carries fresh Pop instances instead of the POP singleton
+        # (as after pickling, deepcopy or the set operators)
+        import copy
+        g = copy.deepcopy(g)
+        mark('copied')
     triples = list(g.triples)
     n = len(triples)
     variables = sorted(g.variables())
@@ -154,7 +162,7 @@ def h_edits(base: int, k: int, **sym):
 
 
 def _edit_params(fixed):
-    d = {}
+    d = {'copy': int}
     for e in range(fixed['k']):
         d[f'e{e}_kind'] = int
         d[f'e{e}_i'] = int
